@@ -51,6 +51,7 @@ EXPECT = {
     'S2': [('FixtureConic::Forward', 'gamma')],
     'D1': [('FixtureConic::SetScale', '_nrho0')],
     'H1': [('FixtureConic::SetScale', '_k0')],
+    'H2': [('FixtureConic::Forward', 'y')],
     'I1': [('FixtureHarm::T', 'invR')],
     'DSP': [('FixtureHarm::Value', 'Engine<FULL>')],
     'SW1': [('FixtureLint::Use', 'Cell(m,n)')],
@@ -106,6 +107,9 @@ def run_controls(rules):
         elif r == 'H1':
             from .rules import homog
             res = homog.rule_H1(fx, [NS + 'FixtureConic'])[0]
+        elif r == 'H2':
+            from .rules import homog
+            res = homog.rule_H2(fx, [NS + 'FixtureConic'])[0]
         elif r == 'D1':
             from .rules import derived
             res = derived.rule_D1(fx, [NS + 'FixtureConic'])[0]
